@@ -200,12 +200,14 @@ struct Ex {
     return nullptr;
   }
   const Stmt *peelCond(const Stmt *S, bool &neg) {
-    neg = false;
+    neg = false; bool wrapped = false;
     while (S) {
       auto *E = dyn_cast<Expr>(S); if (!E) return S;
       const Expr *I = E->IgnoreParenImpCasts();
       if (auto *EWC = dyn_cast<ExprWithCleanups>(I)) { S = EWC->getSubExpr(); continue; }
-      if (auto *U = dyn_cast<UnaryOperator>(I)) if (U->getOpcode()==UO_LNot) { neg = !neg; S = U->getSubExpr(); continue; }
+      if (auto *U = dyn_cast<UnaryOperator>(I)) if (U->getOpcode()==UO_LNot) { neg = !neg; wrapped = true; S = U->getSubExpr(); continue; }
+      // if (!(a || b)): the negation makes clang evaluate a || b as a value (both arms meet in the block that branches): that block tests the whole expression
+      if (auto *LB = dyn_cast<BinaryOperator>(I)) if (LB->isLogicalOp() && wrapped) return I;
       if (auto *LB = dyn_cast<BinaryOperator>(I)) if (LB->isLogicalOp()) { S = LB->getRHS(); continue; }   // in the block that evaluates the RHS the whole expression has the RHS's truth value
       return I;
     }
@@ -363,6 +365,25 @@ struct Ex {
           if (auto *MC = dyn_cast<CXXMemberCallExpr>(CE)) { const Expr *O = MC->getImplicitObjectArgument(); E["recv"]=path(O); E["field"]=firstField(O); E["lfield"]=lastField(O); E["recv_type"]=O->getType().getAsString(); int re = evOf(O); if (re>=0) E["recv_ev"]=re; }
           else if (auto *OC = dyn_cast<CXXOperatorCallExpr>(CE)) { if (Callee && isa<CXXMethodDecl>(Callee) && OC->getNumArgs()) { E["recv"]=path(OC->getArg(0)); E["field"]=firstField(OC->getArg(0)); E["lfield"]=lastField(OC->getArg(0)); E["recv_type"]=OC->getArg(0)->getType().getAsString(); int re = evOf(OC->getArg(0)); if (re>=0) E["recv_ev"]=re; a0 = 1; } }
           if (!Callee) { E["callee_expr"]=path(CE->getCallee()); E["callee_type"]=CE->getCallee()->getType().getAsString(); }
+          // std::invoke(f, args...) with f a closure / functor object is f(args...): report it as the call of f's call operator
+          if (Callee && !isa<CXXMemberCallExpr>(CE) && !isa<CXXOperatorCallExpr>(CE) && CE->getNumArgs() >= 1 && fq(Callee) == "std::invoke") {
+            const Expr *F0 = CE->getArg(0); QualType FT = F0->getType().getNonReferenceType();
+            // std::invoke(&C::member, obj, args...) is obj->member(args...)
+            const CXXMethodDecl *PM0 = nullptr;
+            if (auto *U0 = dyn_cast<UnaryOperator>(F0->IgnoreParenImpCasts())) if (U0->getOpcode()==UO_AddrOf) if (auto *DR0 = dyn_cast<DeclRefExpr>(U0->getSubExpr()->IgnoreParenImpCasts())) PM0 = dyn_cast<CXXMethodDecl>(DR0->getDecl());
+            if (PM0 && CE->getNumArgs() >= 2 && !PM0->isStatic()) {
+              const Expr *O = CE->getArg(1); calleeInfo(E, PM0);
+              std::string rp = path(O); if (O->getType()->isPointerType()) { E["recv"]=rp; } else { E["recv"]=rp; }
+              E["field"]=firstField(O); E["lfield"]=lastField(O); E["recv_type"]=O->getType().getAsString(); E["via_invoke"]=true; a0 = 2;
+            } else
+            if (auto *RD = FT->getAsCXXRecordDecl()) {
+              const CXXMethodDecl *Op = nullptr;
+              if (RD->isLambda()) { Op = RD->getLambdaCallOperator(); if (Op && Op->isTemplated() && !Op->isTemplateInstantiation()) Op = nullptr; }
+              else { for (auto *M : RD->methods()) if (M->getOverloadedOperator() == OO_Call && !M->isTemplated()) { if (Op) { Op = nullptr; break; } Op = M; } }
+              E["recv"]=path(F0); E["field"]=firstField(F0); E["lfield"]=lastField(F0); E["recv_type"]=F0->getType().getAsString(); E["via_invoke"]=true; a0 = 1;
+              if (Op) { calleeInfo(E, Op); }
+            }
+          }
           for (unsigned i=a0;i<CE->getNumArgs();++i) A.push_back(CE->getArg(i));
           E["args"]=argsOf(A);
         } else if (auto *CC = dyn_cast<CXXConstructExpr>(S)) {
